@@ -4,7 +4,7 @@ from . import _bounded
 
 PROPERTIES = {
     "C12": dict(
-        modules=["contracts.c12_get_data", "contracts.c02_documents"],
+        modules=["contracts.c12_get_data", "contracts.c02_documents", "contracts.c04_methods"],
         bounded=[_bounded.lazy("contracts.e2e_plugins", "bounded_plugins"), _bounded.lazy("contracts.e2e_variables", "bounded_method_locals"), _bounded.lazy("contracts.e2e_outcomes", "bounded_outcomes")],
         explanation="get_data of the four bundled base clients against the decision table of the statement; loop-free apart "
                     "from one comprehension (handled by map extensionality), so the symbolic execution over full-domain "
@@ -131,14 +131,14 @@ PROPERTIES = {
         assumptions=["that dumped JSON coerces to the caller's values is pydantic's and graphql-core's (assumed, sampled by the stand-in)"],
     ),
     "C04": dict(
-        modules=["contracts.c04_package", "contracts.c04_modules", "contracts.c08_fragments", "contracts.c18_names"],
+        modules=["contracts.c04_package", "contracts.c04_modules", "contracts.c08_fragments", "contracts.c18_names", "contracts.c04_methods"],
         bounded=[_bounded.lazy("contracts.e2e_package", "bounded_packages"), _bounded.lazy("contracts.c08_fragments", "bounded_fragment_order"),
                  _bounded.lazy("contracts.e2e_fragments", "bounded_scenarios"), _bounded.lazy("contracts.e2e_pruning", "bounded_pruned_packages")],
         explanation="package orchestration (order of steps, reported files), module-level generators (init __all__, enum members), documented refusals; whole packages by an end-to-end bounded stand-in (import of every generated module)",
         assumptions=["that formatted modules import is autoflake/isort/black/pydantic's (assumed, sampled by the stand-in)"],
     ),
     "C02": dict(
-        modules=["contracts.c02_documents", "contracts.c17_settings", "contracts.c03_arguments", "contracts.c02_reachable", "contracts.c01_typedef"],
+        modules=["contracts.c02_documents", "contracts.c17_settings", "contracts.c03_arguments", "contracts.c02_reachable", "contracts.c01_typedef", "contracts.c04_methods"],
         bounded=[_bounded.lazy("contracts.e2e_variables", "bounded_method_locals"), _bounded.lazy("contracts.e2e_documents", "bounded_documents"),
                  _bounded.lazy("contracts.c11_multipart", "bounded_wire"), _bounded.lazy("contracts.e2e_fuzz", "bounded_generated_documents")],
         explanation="method-body templates (the bound query text is what is sent, under every renaming of the method locals), operation validation rule set; whole documents by an end-to-end bounded stand-in",
